@@ -34,7 +34,8 @@ def run(ctx, escalated=False):
                                                 (r["cancel_how"] or "").split(" <")[0]))
         extra.append(Case({"kind": "conductor", "spec": r["spec"], "polls": r["polls"], "returned": r["ret"],
                            "entry": r["entry"], "options": r["options"], "cancel_how": r["cancel_how"],
-                           "cancel_at_poll": r["cancelled"]}, [], [], r["mon"]["C07"][:3],
+                           "cancel_at_poll": r["cancelled"]}, [r["loop"][0]] if r["loop"] else [],
+                          [r["loop"][1]] if r["loop"] else [], r["mon"]["C07"][:3],
                           r["cancelled"] is not None))
         ctx.count("conductor:" + r["ret"])
         if k % 30 == 29:
